@@ -542,6 +542,11 @@ func freqRates(rng *rand.Rand, nrates int) []float64 {
 	}
 	rates = append(rates, nearIntegerPeriods(24)...)
 	rates = append(rates, 1e9/1024, 1e6-1)
+	for k := 1; k <= 22; k++ { // powers of two (a shift instead of a division), below and above 1 MHz
+		if k >= 9 || k%3 == 0 {
+			rates = append(rates, float64(int(1)<<uint(k)))
+		}
+	}
 	return append(rates, 1, 2, 3, 7, 1000000, 999999, 44100.5, 0.5, 1.0/3, 47999.99, 12345.678, 29.97, 59.94, 1e6+0.5, 44100.4, 2.6, 48000/1.001)
 }
 
@@ -650,6 +655,22 @@ func freqSweep(w *numWriter, rng *rand.Rand, rates []float64, ncounts int) {
 		sort.Slice(ds, func(i, j int) bool { return ds[i] < ds[j] })
 		for _, d := range ds {
 			w.emit(&NEvent{Op: "Ev", F: floatJ(r), X: numOfI64(d), Y: numOfI64(int64(f.Events(time.Duration(d))))})
+		}
+		// chains: each call's argument is what the previous call of the OTHER method just returned (duration -> count
+		// -> duration -> count ...), starting from durations that are not a whole number of periods: a result may
+		// depend on the argument and the rate only, not on what was asked before
+		for i := 0; i < len(ds); i += 1 + len(ds)/40 {
+			d := ds[i]
+			for step := 0; step < 3; step++ {
+				n := f.Events(time.Duration(d))
+				w.emit(&NEvent{Op: "Ev", F: floatJ(r), X: numOfI64(d), Y: numOfI64(int64(n))})
+				d2 := f.Duration(n)
+				w.emit(&NEvent{Op: "Dur", F: floatJ(r), X: numOfI64(int64(n)), Y: numOfI64(int64(d2))})
+				d = int64(d2) + int64(step)*7 + 1
+				if d > int64(24*time.Hour) {
+					break
+				}
+			}
 		}
 	}
 }
